@@ -54,7 +54,10 @@ def run_driver(scenarios, procs=16):
 
     def work(chunk):
         inp = "\n".join(json.dumps(s) for s in chunk) + "\n"
-        r = subprocess.run([DRIVER], input=inp, capture_output=True, text=True)
+        try:
+            r = subprocess.run([DRIVER], input=inp, capture_output=True, text=True, timeout=float(os.environ.get("VERIF_DRIVER_TIMEOUT", 1200)))
+        except subprocess.TimeoutExpired:
+            raise RuntimeError(f"driver gave no answer within its time limit on a batch of {len(chunk)} scenarios")
         if r.returncode != 0:
             raise RuntimeError(f"driver exit {r.returncode}: {r.stderr[:400]}")
         return [json.loads(line) for line in r.stdout.splitlines() if line.strip()]
